@@ -63,6 +63,7 @@ func init() {
 		// a union of caveat readers must hand the policy what the first accepting member read, whatever it read before
 		emit("reqcraft", []string{"or", "-", "-"}, "crafted/or", true)
 		genRdTree(cfg, emit, 150, 3000)
+		genStructRead(cfg, emit, 300, 6000)
 		// an attestation whose caveats carry a field the attestation schema does not know: not a session
 		if err := worldGen("C02", 60, 1200, genOpts{minDepth: 1, maxDepth: 3, sessions: true, sessionPct: 100, attVariant: 6,
 			kinds: []string{"none", "none", "permute"}})(cfg, emit); err != nil {
@@ -100,6 +101,8 @@ func init() {
 		})
 		// the same session validated before and after the attestation's window boundary passes
 		genSeq(cfg, emit, "C04", 36, 360, 100)
+		// the reader the caveats of ucan/attest are read with, at and around {proof: link}
+		genStructRead(cfg, emit, 300, 6000)
 		return nil
 	}
 	// C05: revocation of any delegation of the chain (and of decoys)
